@@ -22,10 +22,12 @@ EXPLANATION = (
 SRCS = [
     ('<dtml-in seq mapping sort_expr="sk" reverse_expr="rv"><dtml-var i>,</dtml-in>|<dtml-if c>[<dtml-var c>]</dtml-if>|'
      '<dtml-let z="q+1"><dtml-var z></dtml-let>|<dtml-in seq mapping size=sz start=st><dtml-var i></dtml-in>|<dtml-var d>|'
-     '<dtml-in lst reverse><dtml-var sequence-item></dtml-in>|<dtml-in seq mapping sort=k/cmpf><dtml-var i></dtml-in>'),
+     '<dtml-in lst reverse><dtml-var sequence-item></dtml-in>|<dtml-in seq mapping sort=k/cmpf><dtml-var i></dtml-in>|'
+     '<dtml-if "_.has_key(\'opt\') and opt">[<dtml-var opt>]</dtml-if><dtml-var "_.has_key(\'opt\') and opt or q">'),
     ('<dtml-in seq mapping sort=k><dtml-var i>;</dtml-in>|<dtml-with w mapping><dtml-var q></dtml-with>|'
      '<dtml-try><dtml-var "10/q"><dtml-except ZeroDivisionError>E</dtml-try>|<dtml-var d>|<dtml-in dl><dtml-var sequence-item></dtml-in>|'
-     '<dtml-unless c>U</dtml-unless><dtml-in seq mapping sort_expr="sk" size=5><dtml-var i></dtml-in>'),
+     '<dtml-unless c>U</dtml-unless><dtml-in seq mapping sort_expr="sk" size=5><dtml-var i></dtml-in>|'
+     '<dtml-in "_.has_key(\'opt\') and [opt] or []"><dtml-var sequence-item></dtml-in><dtml-var opt missing="-">'),
 ]
 DEFAULTS = {'d': 'dflt', 'dl': [3, 1, 2]}
 
@@ -131,6 +133,8 @@ def apply_op(op, t, j, nsA, nsB):
 def run_history(ops, av, uA, uB, rA, dB):
     nsA = make_ns(av, 1, uA, rA, 1, 2, 1, 2, False)
     nsB = make_ns(2, av, uB, not rA, 0, 0, 2, 1, dB)
+    # an OPTIONAL variable: defined in one of the two namespaces only (which one follows the data bits)
+    (nsA if uA else nsB)['opt'] = 'o%d' % av
     j = 0
     t = fresh(j)
     CUR['defaults'] = 'std'
@@ -243,3 +247,36 @@ for _f in range(NOPS):
 OBLIGATIONS.append(Ob('file_history', ob_file_history, ['0 <= o1 < 4', '0 <= o2 < 4', '0 <= o3 < 4'], timeout=tier(200, 900),
                       data='-', selectors='File / HTMLFile: histories of 3 operations (render, pickle, deepcopy, rewrite file)', stubs='runs untraced; temporary file under the system temp dir, removed afterwards'))
 OBLIGATIONS.append(Ob('string_repeat', ob_string_repeat, ['-1 <= c <= 1'], timeout=tier(250, 900), data='ints a, b, sort key choices', selectors='EPFS template rendered A, B, A'))
+
+
+# ---------------------------------------------------------------- wave 3: several template OBJECTS with the same source text
+TWIN_SRC = 'a<dtml-in seq><dtml-var sequence-item></dtml-in>|<dtml-let y=b><dtml-var y html_quote upper></dtml-let>|<dtml-var b>'
+TWIN_ENC = ['utf-8', 'latin-1', 'cp1252', 'utf-16-le']
+TWIN_TEXT = '\xe9\u20ac<'.replace('\u20ac', '')          # text encodable in all of them except the euro sign: keep it latin-1 safe
+
+
+def ob_twin_templates(e1: int, e2: int, o1: int, o2: int, o3: int) -> bool:
+    """two template objects built from byte-identical source with (possibly) different encodings, used in a selected order of
+    operations (render object i / pickle round trip of object i): every rendering decodes bytes with the encoding of the template
+    that is rendering - whatever other templates with the same text were compiled before"""
+    encs = [TWIN_ENC[pick(e, len(TWIN_ENC))] for e in (e1, e2)]
+    ops = [pick(o, 4) for o in (o1, o2, o3)]
+    with NoTracing():
+        ts = [HTML(TWIN_SRC, encoding=enc) for enc in encs]
+        text = '\xe9<'
+        for op in ops + [0, 1]:
+            i = op % 2
+            if op >= 2:
+                ts[i] = pickle.loads(pickle.dumps(ts[i]))
+                continue
+            b = text.encode(encs[i])
+            out = ts[i](seq=[b, 'x'], b=b)
+            exp = 'a' + text + 'x|' + text.replace('<', '&lt;').upper() + '|' + text
+            if out != exp:
+                return False
+        return True
+
+
+OBLIGATIONS.append(Ob('twin_templates', ob_twin_templates, ['0 <= e%d < %d' % (i, len(TWIN_ENC)) for i in (1, 2)] + ['0 <= o%d < 4' % i for i in (1, 2, 3)], timeout=tier(280, 900), path_timeout=60,
+                      data='-', selectors='two HTML objects over one source text, encodings selected from %r, histories of 3 operations (render i / pickle round trip i) followed by rendering both' % TWIN_ENC,
+                      stubs='runs untraced once the selectors are fixed on the path'))
